@@ -89,7 +89,11 @@ fn parse_set(role: &str, v: &Value) -> Option<KeySet> {
             }
         }
     }
-    let key_id = signing.get("name").and_then(|n| n.as_str())
+    // The key identifier is the file name of the certificate. (The `name`
+    // field cannot be used: for a certificate published directly under the
+    // repository base it lacks its first character.)
+    let key_id = signing.get("uri").and_then(|n| n.as_str())
+        .and_then(|u| u.rsplit('/').next())
         .map(|n| n.trim_end_matches(".cer").to_string())
         .unwrap_or_default();
     Some(KeySet {
